@@ -42,6 +42,7 @@ const (
 	AWide                  // (r0,r1) = wide(acc, i64, f32, f64): multi-value, mixed types; acc = low32(r0) + r1
 	AFarStore              // page A (1..MaxPages-1), cell B := acc|1   (traps out of bounds unless the memory was grown that far)
 	AFarLoad               // acc += page A, cell B                      (same)
+	AReaddir               // fd_readdir(3, buf, len=A, cookie=B): acc += errno*1000 (WASI atoms, C11 only)
 	AHost2                 // (r0,r1) = host2(acc): a host function with more results than parameters; acc = r0 + r1
 )
 
@@ -80,7 +81,7 @@ type Atom struct {
 }
 
 func (a Atom) String() string {
-	n := []string{"store", "storeacc", "loadacc", "gadd", "call", "callimp", "calli", "host", "trap", "grow", "rec", "tableset", "exit", "meminit", "datadrop", "tableinit", "elemdrop", "tailcall", "stdout", "open", "close", "callgref", "atomicadd", "wide", "farstore", "farload", "host2"}[a.K]
+	n := []string{"store", "storeacc", "loadacc", "gadd", "call", "callimp", "calli", "host", "trap", "grow", "rec", "tableset", "exit", "meminit", "datadrop", "tableinit", "elemdrop", "tailcall", "stdout", "open", "close", "callgref", "atomicadd", "wide", "farstore", "farload", "readdir", "host2"}[a.K]
 	return fmt.Sprintf("%s(%d,%d)", n, a.A, a.B)
 }
 
@@ -104,6 +105,7 @@ const (
 	SlotNull          = 6 // always null initially
 	SlotOdd           = 7 // holds a function of another signature
 	PassiveData int32 = 0x5EEDF00D
+	ActiveData  int32 = 0x00C0FFEE // initial value of the last cell (active data segment)
 )
 
 // Plan is one guest module.
@@ -142,6 +144,7 @@ type Opts struct {
 	GRef               bool // funcref-global atom
 	Atomics            bool // atomic atoms and traps (needs the threads feature)
 	Wide               bool // the multi-value mixed-type function
+	ReaddirHeavy       bool // WASI: many fd_readdir atoms
 	Host2              bool // env.h2: (i32) -> (i32, i32), pure; the embedder must export it
 }
 
@@ -161,7 +164,7 @@ func Generate(t *tape.Tape, o Opts) *Plan {
 		for j := 0; j < na; j++ {
 			val++
 			// weights: store, storeacc, loadacc, gadd, call, callimp, calli, host, trap, grow, rec, tableset, exit, meminit, datadrop, tableinit, elemdrop, tailcall
-			w := []int{4, 3, 2, 3, 4, 0, 0, 0, 0, 0, 0, 0, 0, 0, 0, 0, 0, 0, 0, 0, 0, 0, 0, 0, 0, 0, 0}
+			w := []int{4, 3, 2, 3, 4, 0, 0, 0, 0, 0, 0, 0, 0, 0, 0, 0, 0, 0, 0, 0, 0, 0, 0, 0, 0, 0, 0, 0}
 			if o.Wide {
 				w[AWide] = 2
 			}
@@ -169,7 +172,10 @@ func Generate(t *tape.Tape, o Opts) *Plan {
 				w[AHost2] = 2
 			}
 			if o.WASI {
-				w[AStdout], w[AOpen], w[AClose] = 3, 2, 2
+				w[AStdout], w[AOpen], w[AClose], w[AReaddir] = 3, 2, 2, 3
+				if o.ReaddirHeavy {
+					w[AReaddir] = 14
+				}
 			}
 			if o.GRef {
 				w[ACallGRef] = 2
@@ -243,6 +249,9 @@ func Generate(t *tape.Tape, o Opts) *Plan {
 				a.A, a.B = int32(t.Choose(NCells)), int32(1+t.Choose(9))
 			case AGrow:
 				a.A = int32(t.Choose(3))
+			case AReaddir:
+				// buffer sizes from "not even one header" to several entries; cookies computed, not returned
+				a.A, a.B = int32(tape.Pick(t, []int{24, 40, 64, 100})), int32(t.Choose(3))
 			case AFarStore, AFarLoad:
 				a.A, a.B = int32(1+t.Choose(MaxPages-1)), int32(t.Choose(NFar))
 			case ARec:
@@ -282,6 +291,7 @@ func Generate(t *tape.Tape, o Opts) *Plan {
 type Layout struct {
 	Host, ProcExit             uint32
 	FdWrite, PathOpen, FdClose uint32
+	FdReaddir                  uint32
 	Imp0                       uint32 // first imported plan function
 	Host2                      uint32 // env.h2, when the plan has it
 	F0                         uint32 // first plan function
@@ -293,8 +303,8 @@ type Layout struct {
 }
 
 func (p *Plan) Layout() Layout {
-	l := Layout{Host: 0, ProcExit: 1, FdWrite: 2, PathOpen: 3, FdClose: 4, Imp0: 5}
-	l.F0 = 5 + uint32(p.NImports)
+	l := Layout{Host: 0, ProcExit: 1, FdWrite: 2, PathOpen: 3, FdClose: 4, FdReaddir: 5, Imp0: 6}
+	l.F0 = 6 + uint32(p.NImports)
 	if p.Host2 {
 		l.Host2 = l.F0
 		l.F0++
@@ -321,6 +331,7 @@ func (p *Plan) Encode() []byte {
 	m.ImportFunc("wasi_snapshot_preview1", "fd_write", []wasmb.ValType{w32, w32, w32, w32}, i32)
 	m.ImportFunc("wasi_snapshot_preview1", "path_open", []wasmb.ValType{w32, w32, w32, w32, w32, w64, w64, w32, w32}, i32)
 	m.ImportFunc("wasi_snapshot_preview1", "fd_close", i32, i32)
+	m.ImportFunc("wasi_snapshot_preview1", "fd_readdir", []wasmb.ValType{w32, w32, w32, w64, w32}, i32)
 	for i := 0; i < p.NImports; i++ {
 		m.ImportFunc(p.ImportFrom, fmt.Sprintf("f%d", i), i32, i32)
 	}
@@ -378,6 +389,25 @@ func (p *Plan) Encode() []byte {
 				}
 			case AGrow:
 				c.I32Const(a.A).MemoryGrow().Drop()
+			case AReaddir:
+				// cookies are indexes: skip ahead by exactly what the previous call made the host read
+				// (len/24+2 entries), three times; call the host (the scheduler may run other instances);
+				// read again from the last cookie with a larger buffer.  acc += errno*1000 each time
+				// (the number of bytes used depends on the host's directory order: not part of the result)
+				stride := a.A/24 + 2
+				rd := func(ln int32) {
+					c.I32Const(3).I32Const(0x400).I32Const(ln).LocalGet(2).I64ExtendI32U().I32Const(0x3f0).Call(l.FdReaddir)
+					c.I32Const(1000).I32Mul().LocalGet(1).I32Add().LocalSet(1)
+				}
+				c.I32Const(a.B).LocalSet(2)
+				for k := 0; k < 3; k++ {
+					rd(a.A)
+					if k < 2 {
+						c.LocalGet(2).I32Const(stride).I32Add().LocalSet(2)
+					}
+				}
+				c.I32Const(0).LocalGet(1).Call(l.Host).LocalSet(1)
+				rd(256)
 			case AHost2:
 				c.LocalGet(1).Call(l.Host2).I32Add().LocalSet(1)
 			case AFarStore:
@@ -455,7 +485,7 @@ func (p *Plan) Encode() []byte {
 				c.LocalSet(1).Block(wasmb.BlockVoid).Block(wasmb.BlockVoid).LocalGet(1).Br(2).End().End().Unreachable()
 			}
 		}
-		m.AddFunc(i32, i32, []wasmb.ValType{wasmb.I32}, c.B, fmt.Sprintf("f%d", i))
+		m.AddFunc(i32, i32, []wasmb.ValType{wasmb.I32, wasmb.I32}, c.B, fmt.Sprintf("f%d", i))
 	}
 	// rec0, rec1: rec(n) = n <= 0 ? 0 : rec(n-1)+1, with i64 locals kept live across the call
 	// (a huge n exhausts the stack, a small n returns n)
@@ -518,7 +548,10 @@ func (p *Plan) Encode() []byte {
 	}
 	all = append(all, l.Gleaf)
 	m.Elems = append(m.Elems, wasmb.Elem{Mode: 2, Funcs: all})
-	m.Datas = []wasmb.Data{{Passive: true, Bytes: []byte{0x0D, 0xF0, 0xED, 0x5E}}, {Offset: wasmb.ConstI32(0x120), Bytes: []byte("f")}}
+	m.Datas = []wasmb.Data{{Passive: true, Bytes: []byte{0x0D, 0xF0, 0xED, 0x5E}}, {Offset: wasmb.ConstI32(0x120), Bytes: []byte("f")},
+		// an active segment that initialises the LAST cell: instances start from the segment's bytes, never
+		// from what another instance made of them
+		{Offset: wasmb.ConstI32(8 * (NCells - 1)), Bytes: []byte{byte(ActiveData & 0xFF), byte(ActiveData >> 8 & 0xFF), byte(ActiveData >> 16 & 0xFF), byte(ActiveData >> 24 & 0xFF)}}}
 	m.DataCount = true
 	return m.Encode()
 }
